@@ -107,13 +107,4 @@ def jointPowers (Rf : Nat → SV K) (u : List K) : List (Tr K) → K
   | c :: cs => jointPower Rf u c + jointPowers Rf u cs
 end
 
-/-! ## harmonic oscillator under one step of the explicit methods (discrete layer, exact polynomials in `hω`)
-state `(x, v)`, `ẋ = v`, `v̇ = −w2 x`; energy `E = v² + w2 x²` (twice, unit mass) -/
-def hoF (w2 : K) (s : K × K) : K × K := (s.2, -(w2 * s.1))
-def hoEnergy (w2 : K) (s : K × K) : K := s.2 * s.2 + w2 * (s.1 * s.1)
-/-- explicit Euler step -/
-def hoEuler (w2 h : K) (s : K × K) : K × K :=
-  let k := hoF w2 s
-  (s.1 + h * k.1, s.2 + h * k.2)
-
 end C11
